@@ -424,6 +424,69 @@ def history_cases(kind, rng, n):
         yield (rows, True, list(prefix) + query_ops(kind, mentioned))
 
 
+# ----------------------------------------------------------------------------- query blocks INTERLEAVED with the history
+def spec_check_blocks(kind, rows, lf, ops, obs, impl):
+    """T1-T6 on EVERY maximal block of queries of the history, each against the policy in force at that block (the
+    answers of an earlier block - remembered misses, cached per-domain managers - must not leak into a later one)"""
+    i, n = 0, len(ops)
+    while i < n:
+        if ops[i][0] < 50:
+            i += 1
+            continue
+        j = i
+        while j < n and ops[j][0] >= 50:
+            j += 1
+        v = spec_check(kind, rows, lf, ops[i:j], obs[i:j], impl)
+        if v:
+            return [(i + v[0][0], v[0][1])]
+        i = j
+    return []
+
+
+def _blocks_variant(model_compared):
+    def sc(kind, rows, lf, ops, obs, impl):
+        return spec_check_blocks(kind, rows, lf, ops, obs, impl)
+    sc.case_extra = dict(layout="blocks", model_compared=model_compared)
+    return sc
+
+
+def interleaved_cases(kind, rng, n, store):
+    """the whole query block after EACH of 2..4 segments of a management history (1..5 calls each; with `store`, also
+    steps in which the store is edited behind the enforcer's back and reloaded - accepted, or refused because of a
+    malformed grouping row or a failing adapter - with the block after every reload)"""
+    uni = mgmt.Universe(kind)
+    block = query_ops(kind, [])
+    for _ in range(n):
+        gen = mgmt.Gen(rng, kind, W_HIST)
+        rows = gen.rows(rng.randint(0, 8))
+        ops = list(block) if rng.random() < 0.5 else []
+        for _ in range(rng.randint(2, 4)):
+            if store and rng.random() < 0.4:
+                ops += mgmt.store_step(rng, kind, gen, len(rows), block)
+                continue
+            for _ in range(rng.randint(1, 5)):
+                for o in gen.op():
+                    if kind.dom and o[0] in (60, 61) and o[2] == 0:
+                        continue            # the empty string is not a domain of the universe (it means "no domain filter")
+                    if o[0] < 50 or (o[0] == 50 and len(o[1]) == kind.r_arity) or o[0] in (55, 56, 57, 58, 60, 61, 62, 63, 64):
+                        ops.append(o)
+            ops += block
+        yield (rows, True, mgmt.drop_prefix_aliases(kind, rows, ops))
+
+
+def run_interleaved(chk, n, strata):
+    for kn in ("rbac", "dom"):
+        kind = mgmt.KINDS[kn]
+        for store in (False, True):
+            if _hangs[0]:
+                return
+            label = f"interleaved-{'store-' if store else ''}{kn}"
+            cases = list(interleaved_cases(kind, chk.rng, n, store))
+            mgmt.run_cases(chk, kind, cases, _blocks_variant(not store), label=label, key_fn=key_fn, impl_kwargs=IMPL_KW,
+                           compare_model=not store)
+            strata[label.replace("-", "_")] = len(cases)
+
+
 def run(chk, n_random, max_g, max_p, cap, n_deep):
     rng = chk.rng
     strata = chk.extra.setdefault("strata", {})
@@ -433,6 +496,7 @@ def run(chk, n_random, max_g, max_p, cap, n_deep):
         cases = list(history_cases(kind, rng, max(30, n_random // 2)))
         run_stratum(chk, kind, cases, f"after-history-{kn}")
         strata[f"after_history_{kn}"] = len(cases)
+    run_interleaved(chk, max(60, n_random // 2), strata)
     for kn in ("rbac", "dom"):
         if _hangs[0]:
             return False
@@ -473,7 +537,9 @@ def main():
                 f"2-/3-cycle, cycle with tail, diamond, chain, fan-in, with a mirrored copy in a second domain; (3) chains of "
                 f"7..12 assignments around max_hierarchy_level=10 with shortcuts / back edges; (4) random policies of <= 14 rows "
                 f"over 4 subjects x 2 objects x 2 actions [x 2 domains]; non-trivial = the policy has at least one role link; "
-                f"distinct by (kind, policy)")
+                f"distinct by (kind, policy); (5) the query block after management histories, and INTERLEAVED with them: "
+                f"the whole block after each of 2..4 segments of a history (incl. steps where the store is edited out of band "
+                f"and reloaded, accepted or refused), every block checked against the policy in force at that block")
     chk.assumptions = ["the enforce<->implicit-permission clause is only demanded where the hierarchy is within the depth bound "
                        "(everything reachable from the user is reachable in < 10 assignments; computed independently per case); "
                        "the other clauses are demanded everywhere",
@@ -482,6 +548,12 @@ def main():
                    "the four graph-walking queries run under a 2 s CPU-time timer (subclass of casbin.Enforcer calling the real methods)"]
     chk.build(oracle_name="Mgmt")
     if chk.replay_file:
+        import json
+        c = (json.load(open(chk.replay_file)).get("case") or {})
+        if c.get("layout") == "blocks":
+            if not c.get("model_compared"):
+                chk.oracle = None            # out-of-band store edits are outside the Mgmt model
+            return mgmt.replay_case(chk, spec_check_blocks, impl_kwargs=IMPL_KW)
         return mgmt.replay_case(chk, spec_check, impl_kwargs=IMPL_KW)
     if chk.tier == "thorough":
         chk.exhaustive = run(chk, 1500, nl, nr, None, 200)
